@@ -243,11 +243,26 @@ class OriginAnalysis:
             for v in bound_env.names.values():
                 out |= v
             return frozenset(out), bound_env.heap
+        # the same function entered with the same abstract inputs (same objects bound to the same names, same heap) gives the same abstract
+        # result: remembered, so that chains of property getters do not multiply the work at every level (the analysis is deterministic
+        # in its inputs; findings of the first evaluation are already recorded)
+        try:
+            key = (fi.qual, frozenset(bound_env.names.items()), frozenset(((id(k[0]), k[1]), v) for k, v in bound_env.heap.items()))
+            hash(key)
+        except TypeError:
+            key = None
+        memo = self.__dict__.setdefault("_call_memo", {})
+        if key is not None and key in memo:
+            ret, heap = memo[key]
+            return ret, dict(heap)
         self.chain.append((fi.qual, call_node))
         try:
-            return self.run_function(fi, bound_env)
+            ret, heap = self.run_function(fi, bound_env)
         finally:
             self.chain.pop()
+        if key is not None:
+            memo[key] = (ret, dict(heap))
+        return ret, heap
 
 
 class _Walker(FlowWalker):
